@@ -27,6 +27,7 @@ import (
 	"k8s.io/apimachinery/pkg/types"
 
 	slov1alpha1 "github.com/koordinator-sh/koordinator/apis/slo/v1alpha1"
+	"github.com/koordinator-sh/koordinator/pkg/features"
 	"github.com/koordinator-sh/koordinator/pkg/koordlet/metriccache"
 	qosmanagerUtil "github.com/koordinator-sh/koordinator/pkg/koordlet/qosmanager/plugins/util"
 	"github.com/koordinator-sh/koordinator/pkg/koordlet/statesinformer"
@@ -376,7 +377,26 @@ func c11Indices(infos []*qosmanagerUtil.PodEvictInfo) []int {
 	return out
 }
 
+// c11ViaRound: the part additionally runs the strategy's own round function (memoryEvict / cpuEvict) on a second fresh
+// world and requires the same Evict calls as the task loop the harness drives itself (whatever the round function keeps
+// between the features of one round must not change who is evicted: seed C11-8). The feature gates are process-global,
+// so they are set per part, before its parallel range starts.
+var c11ViaRound bool
+
+func c11SetGates(fs []string) {
+	m := map[string]bool{}
+	for _, f := range c11FeatureOrder {
+		m[string(f)] = c11Has(fs, string(f))
+	}
+	if err := features.DefaultMutableKoordletFeatureGate.SetFromMap(m); err != nil {
+		panic(err)
+	}
+	c11ViaRound = len(fs) >= 2 // (with a single feature the round function is the task loop: nothing is carried from one feature to the next)
+}
+
 type c11MObs struct {
+	roundEvents []c11Event
+	roundPanic  string
 	tasks    []c11Task
 	ex       *c11Exec
 	returned map[string]map[string]int64
@@ -440,6 +460,21 @@ func c11MRun(c *c11MCase) (o c11MObs) {
 	})
 	if o.ex == nil {
 		o.ex = &c11Exec{}
+	}
+	if c11ViaRound && o.panicS == "" {
+		ex2 := &c11Exec{tasks: o.tasks, already: c.Already, fails: c.Fails}
+		o.roundPanic = mc.Guard(func() {
+			w2 := c11NewWorld(c.Pods, &c.Cfg)
+			for i := range c.Already {
+				if c.Already[i] {
+					ts := metav1.NewTime(time.Unix(1700000000, 0))
+					w2.pods[i].DeletionTimestamp = &ts
+				}
+			}
+			w2.setExecutor(ex2)
+			w2.round()
+		})
+		o.roundEvents = ex2.events
 	}
 	return
 }
@@ -815,6 +850,9 @@ func c11Kinds() map[string]c11P {
 		"none":          {QoS: "LS", Prio: none, Enabled: true},
 		"be-only-alloc": {QoS: "BE", Prio: batch, Enabled: true, Policy: c11Str(`["` + c11FAlloc + `"]`)},
 		"be-only-be":    {QoS: "BE", Prio: batch, Enabled: true, Policy: c11Str(`["` + c11FBE + `"]`)},
+		// a threshold-eligible pod that opts out of every policy but the allocatable one: two threshold tasks of one round
+		// must each apply THEIR policy name to it (seed C11-8 cached the first task's verdict per pod)
+		"mid-only-alloc": {QoS: "LS", Prio: mid, Enabled: true, Policy: c11Str(`["` + c11FAlloc + `"]`)},
 		"be-nilprio":    {QoS: "BE", Enabled: true},
 		// spec.priority 0 is what the Priority admission plugin writes for a pod without a PriorityClass; koordinator then
 		// takes the default of the class the QoS implies (LS: koord-prod)
@@ -860,8 +898,8 @@ func c11EParts(env *mc.Env) []c11EPart {
 	un := []*string{nil}
 	evp2 := []*string{nil, c11Str("-1")}
 	evp3 := []*string{nil, c11Str("-1"), c11Str("5")}
-	all := pick("be", "be-noevict", "mid", "mid-noevict", "prod", "none", "be-only-alloc", "be-only-be", "be-nilprio", "ls-prio0", "ls-nilprio")
-	core := pick("be", "be-noevict", "mid", "prod", "none", "be-only-alloc", "ls-prio0")
+	all := pick("be", "be-noevict", "mid", "mid-noevict", "prod", "none", "be-only-alloc", "be-only-be", "be-nilprio", "ls-prio0", "ls-nilprio", "mid-only-alloc")
+	core := pick("be", "be-noevict", "mid", "prod", "none", "be-only-alloc", "ls-prio0", "mid-only-alloc")
 	small := pick("be", "mid", "none")
 	tiny := pick("be", "mid")
 	var parts []c11EPart
@@ -929,6 +967,7 @@ func c11RunRoundParts(env *mc.Env, unit string) (emitted []*mc.Result) {
 		dims = append(dims, 1<<uint(ep.n))
 		rx := mc.Radix{Dims: dims}
 		rich := ep.rich
+		c11SetGates(ep.features)
 		done, complete := penv.ParallelRangeL(res, rx.Size(), func(l *mc.Local, idx int64) {
 			d := rx.Decode(idx, make([]int, 0, 8))
 			c := c11MCase{Features: ep.features, Already: make([]bool, ep.n)}
@@ -973,6 +1012,16 @@ func c11RunRoundParts(env *mc.Env, unit string) (emitted []*mc.Result) {
 						rep.Report(res, l, key+feat+f.Clause, func() (string, any) {
 							return fmt.Sprintf("%s; case %v; tasks %+v; calls %v; returned %v", f.What, cc, o.tasks, c11EvictsOnly(o.ex.events), o.returned), cc
 						})
+					}
+					if c11ViaRound {
+						l.Count("round_function_runs", 1)
+						if o.roundPanic != "" {
+							rep.Report(res, l, key+"round-function-panics", func() (string, any) { return o.roundPanic + " case " + cc.String(), cc })
+						} else if a, b := fmt.Sprint(c11EvictsOnly(o.ex.events)), fmt.Sprint(c11EvictsOnly(o.roundEvents)); a != b {
+							rep.Report(res, l, key+"round-function-differs-from-its-task-loop", func() (string, any) {
+								return fmt.Sprintf("the strategy's round function issues the Evict calls %s, building the same tasks one by one and handing them to KillAndEvictPods issues %s; case %v; tasks %+v", b, a, cc, o.tasks), cc
+							})
+						}
 					}
 					if o.ex.calls > 0 {
 						h := fnv.New64a()
